@@ -851,3 +851,26 @@ def prop_models(facts, extra_leaves=()):
         if all(ev(t, asg) == bool(p) for t, p in facts):
             models.append(asg)
     return leaves, models
+
+
+def pure_binding(st):
+    """an assignment that cannot raise and has no effect but binding a
+    local name: its value is built from names and constants only"""
+    return isinstance(st, (ast.Assign, ast.AnnAssign)) and \
+        st.value is not None and \
+        all(isinstance(t, ast.Name) for t in (
+            st.targets if isinstance(st, ast.Assign) else [st.target])) and \
+        not any(isinstance(c, (ast.Call, ast.Subscript, ast.Attribute,
+                               ast.BinOp, ast.Await, ast.Yield))
+                for c in ast.walk(st.value))
+
+
+def first_effective(stmts):
+    """the first statement that is neither assertion-only nor a pure
+    binding (what a handler really *does* first)"""
+    for st in stmts:
+        if assertion_only(st) or pure_binding(st) or \
+                isinstance(st, ast.Pass):
+            continue
+        return st
+    return None
